@@ -121,6 +121,8 @@ structure Source where
   controlByte : Nat → Option Nat      -- byte → variant index
   controlNames : List (String × Nat)
   credProtect : Nat → Option Nat
+  arbShape : ArbShape
+  arbImpls : List (String × Nat × List (Nat × Draw))
   opCase : Nat → String          -- `Operation::try_from(b)` then `into_u8`
   vopCase : Nat → String         -- `VendorOperation::try_from(b)`
 
@@ -275,7 +277,7 @@ def genSource : Source :=
                        else if n = "Permissions" then some Gen.flagsPermissions
                        else if n = "AuthenticatorDataFlags" then some Gen.flagsAuthenticatorDataFlags else none,
     controlByte := firstMatch Gen.controlByteTryFrom, controlNames := Gen.controlBytes,
-    credProtect := firstMatch Gen.credProtectTryFrom }
+    credProtect := firstMatch Gen.credProtectTryFrom, arbShape := Gen.arbShape, arbImpls := Gen.arbImpls }
 
 def specSource : Source :=
   { isOracle := true, reqRoles := Spec.reqRoles, respRoles := Spec.respRoles, adExtRoles := Spec.adExtRoles,
@@ -287,7 +289,7 @@ def specSource : Source :=
                        else if n = "Permissions" then some Spec.permissions
                        else if n = "AuthenticatorDataFlags" then some Spec.authDataFlags else none,
     controlByte := Spec.controlByteOf, controlNames := Spec.controlBytes,
-    credProtect := Spec.credProtectOf }
+    credProtect := Spec.credProtectOf, arbShape := Spec.arbShape, arbImpls := Spec.arbImpls }
 
 def parseCfg (s : String) : Option Cfg :=
   match s.toList with
@@ -403,6 +405,26 @@ def handle (src : Source) (line : String) : String :=
     (match parseCfg cfg, fromHex hex with
      | some c, some bs => reqOutcome (src.reqTables c) bs
      | _, _ => "bad-case")
+  | ["arb", ty, hex] =>
+    (match fromHex hex with
+     | none => "bad-case"
+     | some bs =>
+       if ty = "ctap2::Request" ∨ ty = "ctap1::Request" ∨ ty = "authenticator::Request" then "valid"
+       else match src.arbImpls.lookup ty with
+         | none => "bad-case"
+         | some (n, draws) =>
+           match drawAll src.arbShape (draws.map (·.2)) bs [] with
+           | .error .notEnough => "err"
+           | .error .panic => "panic"
+           | .error .ub => "panic"
+           | .ok (vals, rest) =>
+             let slots := (List.range n).map (fun i =>
+               match (draws.map (·.1)).zip vals |>.lookup i with
+               | some v => v
+               | none => none)
+             let v : Val := if ty = "webauthn::FilteredPublicKeyCredentialParameters" then (slots.headD none).getD .unit
+                            else .record slots
+             s!"ok {showVal v} {rest.length}")
   | ["sweep", cfg, pfx, n] =>
     (match parseCfg cfg, fromHex pfx, n.toNat? with
      | some c, some pre, some n =>
